@@ -1,2 +1,3 @@
+-- GENERATED
 import Driver.Proto
 import Driver.C14
